@@ -403,7 +403,29 @@ fn scenario(rng: &mut StdRng, sc: usize, real_out: &mut dyn Write, kv: &HashMap<
             };
             let rpc = sim.client().rpc_tx();
             let h: ckb_types::H256 = hash.unpack();
-            match guard_val(move || rpc.get_transaction(h)) {
+            // one call in three is made from another thread while this thread holds the WRITE lock of the pending pool
+            // (what the relayer's announcement tick and a concurrent send_transaction do): the answer must still be
+            // the pool's, the caller has to wait for the lock (seed C18-7)
+            let locked = rng.gen_bool(0.33);
+            let answer = if locked {
+                let pend = std::sync::Arc::clone(&sim.client().pending);
+                let g = pend.write().unwrap();
+                let (txc, rxc) = std::sync::mpsc::channel();
+                let th = std::thread::spawn(move || {
+                    let _ = txc.send(guard_val(move || rpc.get_transaction(h)));
+                });
+                std::thread::sleep(std::time::Duration::from_millis(60));
+                drop(g);
+                let r = rxc.recv_timeout(std::time::Duration::from_secs(20));
+                let _ = th.join();
+                match r {
+                    Ok(x) => x,
+                    Err(_) => Err("get_transaction did not return after the pool lock was released".to_string()),
+                }
+            } else {
+                guard_val(move || rpc.get_transaction(h))
+            };
+            match answer {
                 Ok(Ok(tws)) => {
                     let status = match tws.tx_status.status {
                         TxStatusKind::Committed => "committed",
